@@ -96,8 +96,11 @@ class CartGeom:
 
 
 def make_cart_grid(geom: CartGeom):
-    from pde import CartesianGrid
+    from pde import CartesianGrid, UnitGrid
 
+    if all(float(o) == 0.0 for o in geom.origin) and all(float(d) == 1.0 for d in geom.dx):
+        # an equivalent representation of the same grid: the dedicated unit-grid class (a subclass of CartesianGrid)
+        return UnitGrid(list(geom.shape), periodic=list(geom.periodic))
     return CartesianGrid(geom.bounds, list(geom.shape), periodic=list(geom.periodic))
 
 
